@@ -55,7 +55,7 @@ def run(ctx):
                         inner.append(w.rfa(2, 99, 7))            # another thread's record must not leak in
                     else:
                         inner.append(w.rfa(1, 20 + j, rnd.choice([1, 2, 3, 4, 5, 7, 0x10, 0x20, 0x80, 0xff]),
-                                           kind='ies'.index(c), ftype=rnd.randrange(1, 12)))
+                                           kind='ies'.index(c), ftype=rnd.randrange(1, 12), q=rnd.choice([0, 3, 0, 1])))
                 cases.append(('vmf%d' % n, w, [w.vmf(1, 1)] + inner + [w.vmf(2, 1, res, ft)]))
                 n += 1
     # ---- launch: permutations of image records (both kinds, equal addresses, duplicates)
@@ -69,7 +69,7 @@ def run(ctx):
             g = gen.ProgGen(w, rnd)
             inner = []
             for rk, iid, sh in perm:
-                inner.append(w.img(1, rk, iid, sh))
+                inner.append(w.img(1, rk, iid, sh, q=rnd.choice([0, 0, 3])))
                 if rnd.random() < 0.3:
                     inner += g.ord_single(1)
                 if rnd.random() < 0.2:
